@@ -226,67 +226,8 @@ def directed_ira(res, year, p, sol, label, rp):
 
 
 def directed_personas(year, seed, n):
-    """Scenarios aimed at rules that random personas rarely exercise."""
     from hv import scen
-    from hv.common import rng_for
-    out = []
-    for k in range(n):
-        r = rng_for('C02dir', seed, year, k)
-        # both spouses with IRA distributions figured on their own Form 8606
-        p = scen.plain_persona(year, 'MFJ', [round(r.uniform(40000, 90000), 2), round(r.uniform(30000, 60000), 2)], key=f'dir8606:{seed}:{k}', deps_odc=r.choice([0, 1]))
-        p.n_1099r = 2
-        p.f1099r = [{'box_1': round(r.uniform(2000, 9000), 2), 'box_2a': 0.0, 'box_4': round(r.choice([0, 120.0]), 2), 'ira': True, 'belongs_to': who, 'box_14_1': 0.0}
-                    for who in ('taxpayer', 'spouse')]
-        for d in p.f1099r:
-            d['box_2a'] = d['box_1']
-        p.ira_mode = '8606'
-        out.append(('F5d', p))
-        # both spouses with an HSA
-        p = scen.plain_persona(year, 'MFJ', [round(r.uniform(50000, 90000), 2), round(r.uniform(30000, 60000), 2)], key=f'dirhsa:{seed}:{k}',
-                               hsa_you=True, hsa_spouse=True, hsa_family=False, s1_adjust=True)
-        out.append(('F4d', p))
-        # itemizer with medical expenses above the floor and capped state taxes
-        st = r.choice(['S', 'MFJ', 'MFS', 'HOH'])
-        p = scen.plain_persona(year, st, round(r.uniform(60000, 140000), 2), key=f'diritem:{seed}:{k}', deps_odc=1 if st == 'HOH' else 0, itemize=True, n_1098=1,
-                               f1098=[{'box_1': round(r.uniform(6000, 15000), 2), 'box_6': round(r.choice([0, 800.0]), 2), 'box_4': 0.0, 'box_5': 0.0}])
-        p.sa.update({'medical_dental_expenses': round(r.uniform(12000, 30000), 2), 'state_local_real_estate_taxes': round(r.uniform(3000, 14000), 2),
-                     'charitable_cash_check': round(r.uniform(0, 5000), 2), 'charitable_other_than_cash_check': round(r.uniform(0, 400), 2), 'other_itemized': round(r.choice([0, 150.0]), 2)})
-        out.append(('F3d', p))
-        # high earner: Form 8959, phase-out of the child credit
-        p = scen.plain_persona(year, r.choice(['S', 'MFJ', 'HOH']), round(r.uniform(205000, 290000), 2), key=f'dirhigh:{seed}:{k}', deps_ctc=r.choice([0, 1, 2]), deps_odc=1)
-        p.other_wh = round(r.choice([0, 250.0]), 2)
-        out.append(('F6d', p))
-        # NC return with additions, deductions, a child deduction and use tax
-        st = r.choice(['S', 'MFJ', 'HOH', 'MFS'])
-        p = scen.plain_persona(year, st, round(r.uniform(30000, 120000), 2), key=f'dirnc:{seed}:{k}', deps_ctc=r.choice([1, 2]), nc=True, n_1098=1,
-                               f1098=[{'box_1': round(r.uniform(2000, 9000), 2), 'box_6': 0.0, 'box_4': 0.0, 'box_5': 0.0}])
-        p.ncv.update({'additions_to_agi': True, 'deductions_from_agi': True, 'try_itemizing': r.random() < 0.5, 'no_consumer_use_tax': False, 'full_records': r.random() < 0.5,
-                      'estimated_tax': round(r.choice([0, 500.0]), 2)})
-        p.sa['state_local_real_estate_taxes'] = round(r.uniform(0, 9000), 2)
-        out.append(('F8d', p))
-        # qualified dividends, capital gain distributions and section 199A dividends
-        st = r.choice(['S', 'MFJ', 'HOH', 'MFS', 'QSS'])
-        p = scen.plain_persona(year, st, round(r.uniform(30000, 160000), 2), key=f'dirdiv:{seed}:{k}', deps_odc=1 if st in ('HOH', 'QSS') else 0, n_div=2,
-                               divs=[{'box_1a': round(r.uniform(500, 9000), 2), 'box_1b': round(r.uniform(100, 500), 2), 'box_2a': round(r.uniform(0, 4000), 2), 'box_4': 0.0,
-                                      'box_5': round(r.uniform(10, 400), 2), 'box_7': round(r.choice([0, 40.0]), 2), 'box_16_1': 0.0} for _ in range(2)])
-        out.append(('F2d', p))
-        # very high earner with qualified dividends: 20 % capital-gain bracket, AMT exemption phase-out (partial solution: Form 6251 is unsupported)
-        st = r.choice(['S', 'MFJ', 'HOH', 'MFS'])
-        w = round(r.uniform(600000, 1400000), 2)
-        p = scen.plain_persona(year, st, [w / 2, w / 2] if st == 'MFJ' else [w / 2, w / 2], key=f'dirrich:{seed}:{k}', deps_odc=1 if st == 'HOH' else 0, n_div=1,
-                               divs=[{'box_1a': 90000.0, 'box_1b': round(r.uniform(20000, 80000), 2), 'box_2a': round(r.uniform(0, 30000), 2), 'box_4': 0.0, 'box_5': 0.0, 'box_7': 0.0, 'box_16_1': 0.0}])
-        for d in p.w2:      # the employer withholds the additional 0.9 % above 200,000
-            d['box_6'] = round(d['box_5'] * 0.0145 + max(0.0, d['box_5'] - 200000.0) * 0.009, 2)
-        out.append(('F6r', p))
-        # Roth distributions (Form 8606 part III) next to a traditional IRA distribution
-        p = scen.plain_persona(year, 'S', round(r.uniform(50000, 90000), 2), key=f'dirroth:{seed}:{k}')
-        p.n_1099r = 1
-        p.f1099r = [{'box_1': 4000.0, 'box_2a': 4000.0, 'box_4': 0.0, 'ira': True, 'belongs_to': 'taxpayer', 'box_14_1': 0.0}]
-        p.ira_mode = '8606'
-        p.f8606.update({'part_1_needed': False, 'part_2_needed': False, 'part_3_needed': True, 'total_nonqualified_distributions': round(r.uniform(3000, 9000), 2),
-                        'qualified_homebuyer': round(r.choice([0, 1000.0]), 2), 'roth_ira_contributions_basis': round(r.uniform(500, 12000), 2)})
-        out.append(('F5r', p))
-    return out
+    return scen.directed_personas(year, seed, n)
 
 
 def run_shard(spec, tier, seed):
